@@ -155,6 +155,17 @@ def load_findings(ctx):
 
 
 # ------------------------------------------------------------------------------------------ trace validation helpers
+def known_pattern(ctx, key):
+    """the open known-finding pattern that covers key, or None"""
+    for k in ctx.known():
+        if k.get("property") == ctx.prop and k.get("status") == "open" and lib._key_match(k.get("key"), key):
+            return k["key"]
+    return None
+
+
+CONFIRMED = set()  # known-finding patterns that TLC has already confirmed on a recorded trace in this run
+
+
 HIST_FIELDS = ("ev", "g", "pos", "a", "hit", "pid", "len", "resp", "ref", "raweq", "plan", "fplan", "bod", "fbod", "nx", "h", "o", "mode")
 
 
@@ -256,10 +267,20 @@ def validate_hist(ctx, rows, details, tag, cfg="Trace_PlanCache.cfg"):
         g = (inv, e["a"]["s"], bool(t[0]["o"] & 8), t[0]["mode"])
         groups.setdefault(g, []).append((t, s))
     nrun = 0
+    skipped_known = {}
     for g, items in groups.items():
         if nrun >= 24:
             ctx.notes.append("more than 24 distinct violation signatures; the remaining ones were not validated")
             break
+        # a signature whose predicted key falls under a known finding that TLC already confirmed in this run is not
+        # validated again (it could only print the same KNOWN-FINDING line)
+        inv0, e0 = items[0][1][0]
+        t0 = items[0][0]
+        pred = "%s:%s:%s:%s:O=%d" % (inv0, t0[0]["mode"], SHAPES[e0["a"]["s"]]["name"], "minify" if t0[0]["o"] & 8 else "nominify", t0[0]["o"])
+        kp = known_pattern(ctx, pred)
+        if kp is not None and kp in CONFIRMED:
+            skipped_known[kp] = skipped_known.get(kp, 0) + len(items)
+            continue
         nrun += 1
         # one TLC run per signature: up to 3 recorded traces with that signature, TLC stops at the first it rejects
         batch, owner = [], []
@@ -297,6 +318,8 @@ def validate_hist(ctx, rows, details, tag, cfg="Trace_PlanCache.cfg"):
             "T_Model": "the engine model rejects the recorded history",
             "nonconformance": "the recorded history is not a behaviour of the specification",
         }.get(what, what)
+        if known_pattern(ctx, key):
+            CONFIRMED.add(known_pattern(ctx, key))
         ctx.violation(key, "%s; history %s, options %s (%s run), position %s, request %s" % (
             msg, t[0]["h"], oname(o), t[0]["mode"], ev.get("pos"), json.dumps(concrete(ev["a"])["q"]) if ev.get("a") else "?"),
             {"history": [concrete(x["a"]) for x in t[1:] if x["g"] in (0, 1) or t[0]["mode"] in ("gated", "traced")], "oset": o, "mode": t[0]["mode"],
@@ -304,6 +327,8 @@ def validate_hist(ctx, rows, details, tag, cfg="Trace_PlanCache.cfg"):
         rest = len(items) - 1
         if rest > 0:
             ctx.notes.append("%d more recorded traces with the signature %s (same invariant, shape, minify on/off, mode)" % (rest, list(g)))
+    for kp, cnt in skipped_known.items():
+        ctx.notes.append("%d more recorded traces fall under the known finding %s (confirmed by TLC on another trace of this run)" % (cnt, kp))
     return accepted, mism
 
 
@@ -351,6 +376,10 @@ def validate_det(ctx, rows, by_rid):
         seen_sig[sig] += 1
         if seen_sig[sig] > 1 or nrun >= 24:
             continue
+        pred = "%s:%s:%s:O=%d" % (name, SHAPES[a["s"]]["name"], "minify" if o & 8 else "nominify", o)
+        kp = known_pattern(ctx, pred) if name != "ResponseIndependentOfOptions" else None
+        if kp is not None and kp in CONFIRMED:
+            continue
         nrun += 1
         path = ctx.path("plans-suspect-%d.ndjson" % nrun)
         lib.write_ndjson(path, rs + [{"ev": "end"}])
@@ -370,6 +399,8 @@ def validate_det(ctx, rows, by_rid):
             key = "%s:%s:O=%d/%d" % (what, shape, first["o"], ev["o"])
         else:
             key = "%s:%s:%s:O=%d" % (what, shape, "minify" if o & 8 else "nominify", o)
+        if known_pattern(ctx, key):
+            CONFIRMED.add(known_pattern(ctx, key))
         f1, f2 = full[(first["rid"], first["o"], first["proc"], first["run"])], full[(ev["rid"], ev["o"], ev["proc"], ev["run"])]
         diff = ""
         if f1["plan_text"] != f2["plan_text"]:
